@@ -55,6 +55,8 @@ hist
   --threads N         force the thread count of every build
   --mapsize BYTES     force the LMDB map size
   --poll-limit N      builds are cancelled by the harness after N polls (hang detection)
+  --choices           also write the items drawn by every split search (`ev chosen <id>`, 202 per attempt);
+                      always on for `replay`
 
 replay
   --only-case N       replay only case N of the trace
@@ -148,6 +150,7 @@ fn parse_args() -> Result<Args, String> {
                 args.tier = Some(Tier::parse(&t).ok_or_else(|| format!("unknown tier {t}"))?);
             }
             "-q" | "--quiet" => args.quiet = true,
+            "--choices" => exec::CHOICES.store(true, std::sync::atomic::Ordering::Relaxed),
             "--profile" => args.profile = Some(value(&mut it, "--profile")?),
             "--cases" => args.cases = Some(value(&mut it, "--cases")?),
             "--first-case" => args.first_case = value(&mut it, "--first-case")?,
@@ -247,6 +250,7 @@ fn real_main() -> Result<(), String> {
             Ok(())
         }
         "replay" => {
+            exec::CHOICES.store(true, std::sync::atomic::Ordering::Relaxed);
             let path = args.positional.first().ok_or("replay needs a trace file")?;
             let mut input: Box<dyn BufRead> = if path == "-" {
                 Box::new(BufReader::new(std::io::stdin()))
